@@ -7,8 +7,9 @@
    * An aware datetime is (local wall-clock seconds, utc offset seconds, zone name); its instant is
      local - offset, exactly as CPython computes `.timestamp()` / comparisons of aware datetimes.
    * A time zone is an oracle: zone name -> (UTC instant -> offset).  pytz's tables are not modelled.
-   * RFC-1123 strings are real strings; strftime's "%Y" is the C library's (glibc: no zero padding),
-     strptime's "%Y" needs exactly four digits.  The parser is *strict*: it accepts exactly the canonical
+   * RFC-1123 strings are real strings.  http_date's text is produced by interpreting the format strings
+     regenerated from utils.py (strftime directives %a %d %b %H %M %S %Y as the C library renders them, the year
+     through the regenerated "%04d"); strptime's "%Y" needs exactly four digits.  The parser is *strict*: it accepts exactly the canonical
      layout "Www, DD Mmm YYYY HH:MM:SS GMT" (any of the seven day names, not cross-checked against the date,
      as in strptime).  strptime's extra leniencies (case-insensitive names, one-digit fields, runs of blanks)
      are outside the model: neither http_date nor the API produces such strings.
@@ -84,23 +85,48 @@ Definition month_names : list string :=
 
 Definition dec4 (y : Z) : string := dec2 (y / 100) ++ dec2 (y mod 100).
 
-(* how strftime renders %Y: the C library's plain decimal (glibc, what /repo does today on Linux), or
-   zero-padded to four digits (what RFC 1123 requires; the behaviour after a repair).  The harness probes
-   the implementation once per run and passes the variant it exhibits. *)
-Definition year_str (pad : bool) (y : Z) : string := if pad then dec4 y else dec_year y.
-
 (* ------------------------------------------------------------------ RFC 1123 <-> instants (UTC) *)
 Definition min_t : Z := 86400.                       (* 0001-01-01 00:00:00 *)
 Definition max_t : Z := 3652060 * 86400 - 1.         (* 9999-12-31 23:59:59 *)
 Definition in_range (t : Z) : bool := (min_t <=? t)%Z && (t <=? max_t)%Z.
 
-(* strftime("%a, %d %b %Y %H:%M:%S GMT") of the UTC datetime with instant t *)
-Definition rfc1123 (pad : bool) (t : Z) : string :=
+(* one strftime directive for the UTC datetime with instant t (C locale, glibc: %Y is not padded) *)
+Definition directive (c : ascii) (t : Z) : string :=
   let n := ord_of t in
   let '(y, m, d) := civil n in
-  nth (Z.to_nat (weekday n)) day_names "" ++ ", " ++ dec2 d ++ " " ++
-  nth (Z.to_nat (m - 1)) month_names "" ++ " " ++ year_str pad y ++ " " ++
-  dec2 (hour_of t) ++ ":" ++ dec2 (minute_of t) ++ ":" ++ dec2 (second_of t) ++ " GMT".
+  if Ascii.eqb c "a" then nth (Z.to_nat (weekday n)) day_names ""
+  else if Ascii.eqb c "d" then dec2 d
+  else if Ascii.eqb c "b" then nth (Z.to_nat (m - 1)) month_names ""
+  else if Ascii.eqb c "Y" then dec_year y
+  else if Ascii.eqb c "H" then dec2 (hour_of t)
+  else if Ascii.eqb c "M" then dec2 (minute_of t)
+  else if Ascii.eqb c "S" then dec2 (second_of t)
+  else if Ascii.eqb c "%" then "%"
+  else "?".
+
+(* datetime.strftime(fmt) *)
+Fixpoint strftime (fmt : string) (t : Z) : string :=
+  match fmt with
+  | EmptyString => ""
+  | String c rest =>
+      if Ascii.eqb c "%" then
+        match rest with
+        | String k rest' => directive k t ++ strftime rest' t
+        | EmptyString => "%"
+        end
+      else String c (strftime rest t)
+  end.
+
+(* fmt % year for the two integer formats that can occur *)
+Definition format_year (fmt : string) (y : Z) : string :=
+  if String.eqb fmt "%04d" then dec4 y
+  else if String.eqb fmt "%d" then dec_year y
+  else "?".
+
+(* the text http_date builds for the UTC datetime with instant t:
+   utc.strftime(K_strftime_prefix) + K_year_format % utc.year + utc.strftime(K_strftime_suffix) *)
+Definition rfc1123 (t : Z) : string :=
+  strftime K_strftime_prefix t ++ format_year K_year_format (year_of (ord_of t)) ++ strftime K_strftime_suffix t.
 
 Definition obind {A B} (o : option A) (f : A -> option B) : option B :=
   match o with Some a => f a | None => None end.
@@ -151,8 +177,8 @@ Definition parse_http_date (zname : string) (z : zone) (ds : string) : res aware
   end.
 
 (* utils.http_date(dt) for an aware dt *)
-Definition http_date (pad : bool) (a : aware) : res string :=
-  if in_range (instant a) then Ok (rfc1123 pad (instant a)) else Err "OverflowError".
+Definition http_date (a : aware) : res string :=
+  if in_range (instant a) then Ok (rfc1123 (instant a)) else Err "OverflowError".
 
 (* ------------------------------------------------------------------ documents, parse_dates *)
 Inductive jv :=
@@ -286,24 +312,24 @@ Definition get_sessions (tz : tzdb) (base : string) (q : query) (responses : lis
   else {| t_requests := []; t_yielded := []; t_outcome := Raised K_site_error |}.
 
 (* ------------------------------------------------------------------ get_sessions_by_time *)
-Definition time_cond (pad : bool) (start stop : option aware) (min_energy : option string) : res string :=
+Definition time_cond (start stop : option aware) (min_energy : option string) : res string :=
   let part (op : string) (a : option aware) : res (list string) :=
     match a with
     | None => Ok []
-    | Some x => res_map (fun s => ["connectionTime " ++ op ++ " """ ++ s ++ """"]) (http_date pad x)
+    | Some x => res_map (fun s => ["connectionTime " ++ op ++ " """ ++ s ++ """"]) (http_date x)
     end in
   res_bind (part ">=" start) (fun c1 =>
   res_bind (part "<=" stop) (fun c2 =>
   Ok (join " and " (c1 ++ c2 ++ match min_energy with Some e => ["kWhDelivered > " ++ e] | None => [] end)))).
 
-Definition by_time_query (pad : bool) (site : string) (start stop : option aware) (min_energy : option string)
+Definition by_time_query (site : string) (start stop : option aware) (min_energy : option string)
            (timeseries : bool) : res query :=
   res_map (fun c => {| q_site := site; q_cond := Some c; q_project := None; q_sort := Some "connectionTime";
-                       q_timeseries := timeseries |}) (time_cond pad start stop min_energy).
+                       q_timeseries := timeseries |}) (time_cond start stop min_energy).
 
-Definition get_sessions_by_time (pad : bool) (tz : tzdb) (base site : string) (start stop : option aware)
+Definition get_sessions_by_time (tz : tzdb) (base site : string) (start stop : option aware)
            (min_energy : option string) (timeseries : bool) (responses : list page) : trace :=
-  match by_time_query pad site start stop min_energy timeseries with
+  match by_time_query site start stop min_energy timeseries with
   | Err e => {| t_requests := []; t_yielded := []; t_outcome := Raised e |}
   | Ok q => get_sessions tz base q responses
   end.
@@ -324,10 +350,6 @@ Fixpoint next_urls (base : string) (ps : list page) : list string :=
   | [] => []
   | p :: r => match p_next p with Some h => (base ++ h) :: next_urls base r | None => [] end
   end.
-
-(* instants whose year strftime renders with four digits: all of years 1..9999 when it pads, 1000..9999 when not *)
-Definition year_ok (pad : bool) (t : Z) : Prop :=
-  if pad then (min_t <= t <= max_t)%Z else (ordinal 1000 1 1 * 86400 <= t <= max_t)%Z.
 
 (* what one converted field is, case by case *)
 Definition field_converted (zn : string) (z : zone) (v v' : jv) : Prop :=
@@ -387,28 +409,28 @@ Definition trace_eqb (a b : trace) : bool :=
 Inductive c20case :=
 | CRun (tabs : list (string * list (Z * Z))) (base : string) (q : query) (responses : list page)
        (expect : trace)
-| CRunByTime (pad : bool) (tabs : list (string * list (Z * Z))) (base site : string) (start stop : option aware)
+| CRunByTime (tabs : list (string * list (Z * Z))) (base site : string) (start stop : option aware)
              (min_energy : option string) (timeseries : bool) (responses : list page) (expect : trace)
-| CHttpDate (pad : bool) (a : aware) (expect : res string)
+| CHttpDate (a : aware) (expect : res string)
 | CParse (tabs : list (string * list (Z * Z))) (zname : string) (ds : string) (expect : res aware)
-| CRoundTrip (pad : bool) (tabs : list (string * list (Z * Z))) (zname : string) (a : aware) (expect : res aware).
+| CRoundTrip (tabs : list (string * list (Z * Z))) (zname : string) (a : aware) (expect : res aware).
 
 Definition res_aware_eqb := res_eqb aware_eqb.
 
 Definition check_c20 (c : c20case) : bool :=
   match c with
   | CRun tabs base q rs e => trace_eqb (get_sessions (tz_of_tables tabs) base q rs) e
-  | CRunByTime pad tabs base site st en me ts rs e =>
-      trace_eqb (get_sessions_by_time pad (tz_of_tables tabs) base site st en me ts rs) e
-  | CHttpDate pad a e => res_eqb String.eqb (http_date pad a) e
+  | CRunByTime tabs base site st en me ts rs e =>
+      trace_eqb (get_sessions_by_time (tz_of_tables tabs) base site st en me ts rs) e
+  | CHttpDate a e => res_eqb String.eqb (http_date a) e
   | CParse tabs zn ds e =>
       match tz_of_tables tabs zn with
       | Some z => res_aware_eqb (parse_http_date zn z ds) e
       | None => false
       end
-  | CRoundTrip pad tabs zn a e =>
+  | CRoundTrip tabs zn a e =>
       match tz_of_tables tabs zn with
-      | Some z => res_aware_eqb (res_bind (http_date pad a) (parse_http_date zn z)) e
+      | Some z => res_aware_eqb (res_bind (http_date a) (parse_http_date zn z)) e
       | None => false
       end
   end.
